@@ -35,7 +35,7 @@ const c12Rule = "generated concurrent programs on the vsync-instrumented build: 
 	"subset of lock acquisitions; then Close. Second scenario: Server.Run on loopback, keep-alive clients still sending, Shutdown with and without rate limit. Oracle = wait-for-cycle / stall monitor, cancellation bound 2 s, " +
 	"Close/Shutdown bound 20 s; non-trivial = >=2 clients ran upload operations concurrently while eviction or expiry was possible (sessions opened > RepoUploadMax or grace <= 50 ms), or a Shutdown with requests in flight; distinct = hash of the program + settings"
 
-var c12Kinds = []string{"uploadChunked", "uploadChunked", "uploadChunked", "sessionAbandon", "sessionAbandon", "upload", "putArt", "putTag", "delDigest", "getRefs", "collect", "slowPut", "cancelGet", "newRepoPush", "listTags"}
+var c12Kinds = []string{"uploadChunked", "uploadChunked", "uploadChunked", "sessionAbandon", "sessionAbandon", "upload", "putArt", "putTag", "delDigest", "getRefs", "collect", "slowPut", "cancelGet", "newRepoPush", "listTags", "mount", "mount"}
 
 type c12Monitor struct {
 	mu       sync.Mutex
